@@ -36,11 +36,20 @@ UNITS.append(Unit(uid="U18.1.table", prop="C18", harness="harness/c18_rc.c", ent
                                "name": "verif_c18_block0", "params": PARAMS}],
                   replace_calls=STUBS, keep_bodies=["verif_c18_block0"], min_obligations=3, cover_functions=[],
                   what="QP->qindex table strictly increasing with end points 0 and 255"))
+UNITS.append(Unit(uid="U18.5.recode", prop="C18", harness="harness/c18_recode.c", entry="h_recode", mode="plain",
+                  functions=["recode_loop_decision_maker"], keep_bodies=["recode_loop_decision_maker", "recode_loop_update_q", "sb_qp_derivation_tpl_la"],
+                  unwind=5, canaries=2, min_obligations=40, cover_functions=["recode_loop_decision_maker"], timeout=600, mem_gb=16,
+                  kind="bounded", bound="<= 3 superblocks in the per-SB qindex loop (frame-level obligations do not depend on it)",
+                  what="recode loop from an arbitrary state with the rate-control decision havoced: a recode writes base_q_idx "
+                       "inside [qindex(min_qp), qindex(max_qp)] and picture_qp inside [min_qp, max_qp] on both control sets, "
+                       "SB qindex = qindex(picture_qp); no recode leaves them untouched",
+                  assumptions=["recode_loop_update_q (EbRateControlProcess.c) replaced by a havoc stub: any q, any decision",
+                               "min_qp <= max_qp <= 63 (postcondition of verify_settings, C12)"]))
 META = {"C18": {
     "level": "proof",
     "explanation": "Contracts on every site that writes the frame quantizer that is reachable as a function or a "
                    "mechanical block slice: the quantizer block of rate_control_kernel as a state "
                    "transformer with the rate-control maths havoced, and the monotone QP->qindex table.",
-    "not_covered": ["recode loop (recode_loop_decision_maker) and svt_av1_set_quantizer's delta-q bump (F9) — planned",
+    "not_covered": ["svt_av1_set_quantizer's delta-q bump (F9)",
                     "that nothing after the block rewrites base_q_idx (history of the kernel)"],
 }}
